@@ -9,7 +9,9 @@ Import ListNotations.
 Inductive rev :=
 | RSend (v : nat)            (* Response.Send: res := v; ch <- v   (the job's own outcome) *)
 | RClose                     (* Response.Close by the goroutine that closed the job *)
-| RRecv (ok : bool) (v : nat). (* Response(): v, ok := <-ch; if !ok then v := res *)
+| RRecv (ok : bool) (v : nat) (* Response(): v, ok := <-ch; if !ok then v := res *)
+| RStore                     (* the plain write of the stored value (Send: before the channel send) *)
+| RLoad.                     (* the plain read of the stored value (Response: after a receive on the closed channel) *)
 
 Record rstate := mkR {
   rch : list nat;      (* buffered values *)
@@ -17,10 +19,11 @@ Record rstate := mkR {
   rclosed : bool;
   rres : nat;          (* the stored value (zero value initially) *)
   rsent : option nat;  (* ghost: what was sent *)
-  rcloses : nat
+  rcloses : nat;
+  rstored : bool       (* the stored value has been written *)
 }.
 
-Definition rinit : rstate := mkR [] 1 false 0 None 0.
+Definition rinit : rstate := mkR [] 1 false 0 None 0 false.
 
 Definition rstep (s : rstate) (e : rev) : option rstate :=
   match e with
@@ -29,20 +32,30 @@ Definition rstep (s : rstate) (e : rev) : option rstate :=
          channel would panic, on a full one block *)
       match rsent s with
       | Some _ => None
-      | None => if negb (rclosed s) && Nat.ltb (length (rch s)) (rcap s)
-                then Some (mkR (rch s ++ [v]) (rcap s) false v (Some v) (rcloses s))
+      | None => (* the value is in place before it can be received, hence before any close *)
+                if negb (rclosed s) && Nat.ltb (length (rch s)) (rcap s) && rstored s
+                then Some (mkR (rch s ++ [v]) (rcap s) false v (Some v) (rcloses s) true)
                 else None
       end
   | RClose =>
       if rclosed s then None   (* close of closed channel: panic *)
-      else Some (mkR (rch s) (rcap s) true (rres s) (rsent s) (S (rcloses s)))
+      else Some (mkR (rch s) (rcap s) true (rres s) (rsent s) (S (rcloses s)) (rstored s))
   | RRecv ok v =>
       if ok
       then match rch s with
-           | x :: r => if Nat.eqb x v then Some (mkR r (rcap s) (rclosed s) (rres s) (rsent s) (rcloses s)) else None
+           | x :: r => if Nat.eqb x v then Some (mkR r (rcap s) (rclosed s) (rres s) (rsent s) (rcloses s) (rstored s)) else None
            | [] => None
            end
       else if rclosed s && Nat.eqb (length (rch s)) 0 && Nat.eqb v (rres s) then Some s else None
+  | RStore =>
+      (* written once, by the sender, before the send: a store after the value left for a
+         reader could come after the close, and a caller reading back would get the zero value *)
+      match rsent s with
+      | None => if rstored s then None
+                else Some (mkR (rch s) (rcap s) (rclosed s) (rres s) (rsent s) (rcloses s) true)
+      | Some _ => None
+      end
+  | RLoad => if rclosed s then Some s else None
   end.
 
 Fixpoint rrun (s : rstate) (es : list rev) : option rstate :=
